@@ -41,7 +41,7 @@ def r1_sqlite(ctx: Context, all_sites) -> None:
         res = sqlite_critical_section(repo, t, all_sites)
         for r in res:
             ctx.add("R1", r.key, r.ok, r.where, r.detail)
-    ctx.floor("R1", "critical-section obligations", ctx.count("R1"), 6)
+    ctx.floor("R1", "functions with an atomic read-write contract", len(targets), 2)
 
 
 def _lock_source(f: FuncInfo, expr: ast.AST, id_param: str):
